@@ -55,6 +55,13 @@ func witnesses() []witness {
 		},
 		{
 			open: true,
+			name: "attr-blank-value-unicode-space",
+			msg:  "[k^=\"\\a0 \"] / [k$=\"\\a0 \"] / [k*=\"\\a0 \"] do not match k=\"&nbsp;\" and [k*=\"\\3000 \"] does not match k=\"&#x3000; \": attributePrefixMatch / SuffixMatch / SubstringMatch refuse every attribute value that strings.TrimSpace finds blank, and TrimSpace also strips U+00A0, U+000B, U+0085, U+2000-U+200A, U+3000 ..., which are ordinary characters for CSS; Selectors 4 §6.2: the value begins with / ends with / contains the (non-empty) operand",
+			html: docOf("<div k=\"\u00a0\"></div><div k=\"\u3000 \"></div><div k=\"c\"></div>"),
+			sels: [][]Complex{{cx1(at("k", "^=", "\u00a0"))}, {cx1(at("k", "$=", "\u00a0"))}, {cx1(at("k", "*=", "\u00a0"))}, {cx1(at("k", "*=", "\u3000"))}},
+		},
+		{
+			open: true,
 			name: "has-relative-scope",
 			msg:  "div:has(div span) matches a div that merely contains a span (the argument's leftmost compound is matched against the :has() element itself and its ancestors); Selectors 4 §4.5: the argument is a relative selector, i.e. ':scope div span' — every compound must match a descendant of the anchor",
 			html: docOf(`<div><span></span></div>`),
